@@ -4,7 +4,7 @@ import itertools
 import torch
 
 EVIDENCE = dict(
-    bounds="bits in {2,4}; every byte value symbolic (BV8); leading dimension 1..40 (quick) / 1..130 (thorough) x trailing shapes of rank 0..3 with dims <= 3, contiguous, transposed and step-2 sliced; kernel agreement on arbitrary bytes for the python kernel, the C++ kernel compiled from /repo's unpack.cpp, and the routed op with extensions enabled / disabled / raising",
+    bounds="bits in {2,4}; every byte value symbolic (BV8); leading dimension 1..40 (quick) / 1..130 (thorough) x trailing shapes of rank 0..3 with dims <= 3, contiguous, transposed and step-2 sliced; kernel agreement on arbitrary bytes for the python kernel, the C++ kernel compiled from /repo's unpack.cpp, and the routed op with extensions enabled / disabled / raising; call histories on every route: two tensors unpacked in turn, a returned result overwritten in place, the payload rewritten through .data, then unpacked again",
     outside="CUDA (unpack.cu) and MPS (unpack.mm) kernels; the mps-only branches of lshift/rshift; shapes beyond the bounds",
     assumptions=[
         "z3 bit-vector theory; transfer functions of the ATen ops listed under aten_ops_interpreted (validated bit-for-bit on every op under the seed)",
